@@ -215,6 +215,12 @@ pub fn gen_cfg(prop: &str, seed: u64) -> RunCfg {
                 g.size_profile = 2;
             }
             let pp = phys_pct_for(&mut g.rng);
+            if pp == 0 && g.rng.pct(12) {
+                // memory-only stacks have no limit on name lengths: two names of 253 bytes that
+                // share their first 252 (the overlay derives marker names from them)
+                g.names.push(format!("{}A", "N".repeat(252)));
+                g.names.push(format!("{}B", "N".repeat(252)));
+            }
             let spec = overlay_stack(&mut g, pp, 1, 4);
             let mut world = World { m: vec![spec.view()], w: Default::default() };
             g.avoid_known = spec.has_ovl();
@@ -240,6 +246,10 @@ pub fn gen_cfg(prop: &str, seed: u64) -> RunCfg {
             // properties reserve such names for that reason (tried, and it alarms on the unchanged
             // tree by construction)
             let pp = phys_pct_for(&mut g.rng);
+            if pp == 0 && g.rng.pct(12) {
+                g.names.push(format!("{}A", "N".repeat(252)));
+                g.names.push(format!("{}B", "N".repeat(252)));
+            }
             let spec = overlay_stack(&mut g, pp, 2, 4);
             let mut world = World { m: vec![spec.view()], w: Default::default() };
             g.avoid_known = spec.has_ovl();
